@@ -95,12 +95,15 @@ impl ComputedAuthorizationItem {
         let mut privilege_assignments: HashMap<String, HashSet<String>> = HashMap::new();
 
         if let Some(input_rules) = authorization_item.rules {
-            if let (Some(privileges), Some(identities), Some(roles), Some(role_assignments)) = (
-                input_rules.privileges,
-                input_rules.identities,
-                input_rules.roles,
-                input_rules.roleAssignments,
-            ) {
+            // a missing section is an empty section: the privileges that are listed must still be
+            // enforced (deny when one matches and nothing grants it), not replaced by the default access
+            let (privileges, identities, roles, role_assignments) = (
+                input_rules.privileges.unwrap_or_default(),
+                input_rules.identities.unwrap_or_default(),
+                input_rules.roles.unwrap_or_default(),
+                input_rules.roleAssignments.unwrap_or_default(),
+            );
+            {
                 let role_dict = roles
                     .into_iter()
                     .map(|role| (role.name.clone(), role))
